@@ -273,6 +273,7 @@ type c12mw struct {
 	passed   *cors.Config // the value that was passed in (shared memory with the caller)
 	srv      http.Handler
 	invoked  int
+	switched bool // just switched to another configuration: the next comparison goes through the suite in order
 	mutate   bool
 	quiet    bool
 	crashNow bool
@@ -392,7 +393,23 @@ func (c12) Exec(plan any, c *Ctx) *Violation {
 		fresh.SetDebug(dbg == 1)
 		fi := 0
 		fsrv := fresh.Wrap(constHandler{n: &fi})
-		rf.suite = probeSuite(target)
+		// what the configurations the middleware may have had BEFORE allowed comes first (the
+		// first comparison after the switch goes through the suite in this order): what an
+		// earlier configuration allowed is of no consequence under this one
+		for k, oc := range p.Cfgs {
+			if k == j {
+				continue
+			}
+			if m, _ := originsFor(oc); len(m) > 0 {
+				for _, o := range m[:min(len(m), 40)] {
+					rf.suite = append(rf.suite, Req{Method: "GET", H: []HV{{hOrigin, []string{o}}}})
+				}
+				for _, o := range m[:min(len(m), 6)] {
+					rf.suite = append(rf.suite, preflight(o, "GET", nil, false))
+				}
+			}
+		}
+		rf.suite = append(rf.suite, probeSuite(target)...)
 		rf.base = make([]Resp, len(rf.suite))
 		for k, q := range rf.suite {
 			rf.base[k] = serveWith(fsrv, q, nil, &fi)
@@ -422,6 +439,12 @@ func (c12) Exec(plan any, c *Ctx) *Violation {
 		for i, x := range mws {
 			pokeGetters(x.m)
 			order := permOf(p.Perm, uint64(stepNo*8+i), len(x.suite))
+			if x.switched { // right after a switch to another configuration: in suite order
+				x.switched = false
+				for k := range order {
+					order[k] = k
+				}
+			}
 			for _, j := range order {
 				got := serveWith(x.srv, x.suite[j], nil, &x.invoked)
 				if got != x.base[j] {
@@ -444,7 +467,7 @@ func (c12) Exec(plan any, c *Ctx) *Violation {
 	lastMW := 0
 	abandon := false
 	for si, st := range p.Steps {
-		clockTick("a step")
+		betweenSteps("a step")
 		x := mws[st.MW%len(mws)]
 		step := fmt.Sprintf("#%d %s mw=%d", si, st.Kind, st.MW%len(mws))
 		// the value written by this step's scribbler: from the fixed list, or a
@@ -553,10 +576,10 @@ func (c12) Exec(plan any, c *Ctx) *Violation {
 				pc.RequestHeaders = editInPlace(pc.RequestHeaders, target.RequestHeaders)
 				pc.ResponseHeaders = editInPlace(pc.ResponseHeaders, target.ResponseHeaders)
 				pc.Credentialed, pc.MaxAgeInSeconds, pc.ExtraConfig = target.Credentialed, target.MaxAgeInSeconds, target.ExtraConfig
-				if err := x.m.Reconfigure(pc); err != nil {
+				if err := reconfN(x.m, pc); err != nil {
 					panic("a configuration NewMiddleware accepts was rejected by Reconfigure: " + err.Error())
 				}
-				x.m.SetDebug(dbg)
+				setDebugN(x.m, dbg)
 				x.cfgIdx, x.tw = j, st.Val%5
 				x.suite, x.base, x.baseCfg = rf.suite, rf.base, rf.cfg
 				c.hit("F4_passed_config_edited_in_place_and_reused")
@@ -577,18 +600,19 @@ func (c12) Exec(plan any, c *Ctx) *Violation {
 					abandon = true
 					return
 				}
-				if err := x.m.Reconfigure(&cc); err != nil {
+				if err := reconfN(x.m, &cc); err != nil {
 					panic("a configuration NewMiddleware accepts was rejected by Reconfigure: " + err.Error())
 				}
-				x.m.SetDebug(dbg)
+				setDebugN(x.m, dbg)
 				x.passed, x.cfgIdx, x.tw = &cc, j, 0
 				x.suite, x.base, x.baseCfg = rf.suite, rf.base, rf.cfg
+				x.switched = true
 				c.hit("reconfigure_to_other_config_vs_fresh")
 			case "reconf_again":
 				// Reconfigure with a FRESH copy of the same configuration (the memory passed
 				// earlier may have been scribbled over meanwhile): behaviour must stay put
 				cc := tweakCfg(p.Cfgs[x.cfgIdx%len(p.Cfgs)], x.tw).Config()
-				if err := x.m.Reconfigure(&cc); err != nil {
+				if err := reconfN(x.m, &cc); err != nil {
 					panic("harness: valid configuration rejected on reconf_again: " + err.Error())
 				}
 				x.passed = &cc
